@@ -70,7 +70,11 @@ func H_C17_hist() {
 		}
 	}
 	// two look-ups in a row: an answer never depends on what was looked up before
-	for probe := 0; probe < 2; probe++ {
+	probes := 2
+	if vParam("FULL") == 1 {
+		probes = 1 // fully symbolic end points below U+0100 are costly: one look-up
+	}
+	for probe := 0; probe < probes; probe++ {
 		ch := vInt32("ch")
 		vAssume(vAnd(ch >= -1, ch <= 0x10FFFF))
 		// the map is configured for characters up to U+FFFE
